@@ -759,7 +759,7 @@ End Proofs.
 (** ---- witnesses: the faithful model still panics on three classes of server-supplied fields
     (documented panics of the CompactBlock / CompactTx accessors), for every oracle ---- *)
 Definition empty_nfs := Nfs [] [] [].
-Definition cfg1 := Cfg (Some 1) (Some 1) (Some 1).
+Definition cfg1 := Cfg (Some 1) (Some 1) (Some 1) (Some 1).
 Definition blk_height_big := Blk 4294967296 (F 32 true 1) (F 32 true 2) 0 None [] None.
 Definition blk_hash_short := Blk 10 (F 31 true 1) (F 32 true 2) 0 None [] None.
 Definition blk_txid_short := Blk 10 (F 32 true 1) (F 32 true 2) 0 None [Tx 0 (F 31 true 3) [] [] [] []] (Some (0, 0, 0)).
@@ -793,3 +793,21 @@ Lemma prev_hash_fixed dec nf_of :
              (Blk 10 (F 32 true 1) (F 31 true 2) 0 None [] None)
   = Err (PrevHashMismatch 10).
 Proof. reflexivity. Qed.
+
+Lemma zip212_policy c h :
+  zip212_enforcement c h
+  = match a_canopy c with
+    | None => ZOff
+    | Some a => if h <? a then ZOff else if h <? N.min (a + Z.to_N V.Gen.C05Consts.ZIP212_GRACE_PERIOD) (U32 - 1) then ZGrace else ZOn
+    end.
+Proof. reflexivity. Qed.
+Lemma dec_truth_zip212 c h k o n :
+  dec_truth c h Sapling k o = Some n ->
+  exists t, o_truth o = Some t /\ lead_accepted (zip212_enforcement c h) (t_lead t) = true
+            /\ t_acct t = k_acct k /\ t_scope t = k_scope k.
+Proof.
+  unfold dec_truth. destruct (o_truth o) as [t|]; [|discriminate]. intros H. exists t.
+  destruct ((t_acct t =? k_acct k) && (t_scope t =? k_scope k) && lead_accepted (zip212_enforcement c h) (t_lead t)) eqn:E; [|discriminate].
+  apply andb_prop in E. destruct E as [E E3]. apply andb_prop in E. destruct E as [E1 E2].
+  repeat split; auto; lia.
+Qed.
